@@ -16,6 +16,11 @@ TEXT = {
 
 META = "Metamorphic/differential bounded check on the real compiler: both programs of every pair are compiled by d2compiler.Compile inside the symbolic interpreter, a canonical projection of the two board trees (IDs, labels, shapes, attributes, styles, connections with endpoints/arrows/index, nested boards, element order) is built as a string with symbolic bytes, and z3 decides equality for every value of the symbolic names/values/choices within the bound. "
 TEXT.update({
+ "C18": ("The real layout orchestration (LayoutNested with subgraph extraction, injection, order restoration and re-attachment of cross-diagram connections, plus the real grid, sequence and near layouts) is executed by the symbolic interpreter over a family of nested diagrams whose shape (kinds of the outer, inner and third-level containers, near groups, which connections cross which boundary) is a vector of symbolic choices; the JavaScript core engine is replaced by a positional stand-in. On every member of the family the structure snapshot before and after must be equal and every pointer must lead to an object of the board. The solver here only decides the choice vector; the strength is that every combination in the family is covered, not a sample.", "4 C18"),
+ "C22": ("d2grid.layoutGrid executed on grids with both rows and columns given, with symbolic cell sizes (exact dyadic lowering of float64): order, disjointness, exact gaps, containment and row/column alignment are proved by the solver for every size in range. Grids with only rows or only columns (dynamic layout) are outside.", "4 C22"),
+ "C44": ("The watcher's real concurrency code (requestCompile, compileLoop, broadcast, handleWatch, writeLoop with their channels, mutexes and wait groups) is executed under the engine's cooperative scheduler with the compiler and the websocket library replaced by recording stand-ins; every schedule within the bound is explored and the latest-result and monotonic-delivery assertions are checked at quiescence.", "4 C44/C45"),
+ "C45": ("Same scheduler harness for shutdown: close() racing with connected clients, a pending compile and a late connection attempt, on every schedule within the bound: close returns only when all handlers have ended, nothing is admitted afterwards, no deadlock or panic.", "4 C44/C45"),
+ "C46": ("The real bundle/runWorkers code (goroutines, semaphore, channels, WaitGroup, mutex, select loop) is executed under the engine's cooperative scheduler, in which every choice of the next goroutine at a blocking operation and a bounded number of preemptions are symbolic choices; together with a symbolic load/fail bit per image every schedule within the bound is explored and the output must equal an order-independent reference.", "4 C46"),
  "C47": ("Partial: only the step before subsetting is decided. Diagram.GetCorpus/GetNestedCorpus are executed on a board holding every text-bearing element kind with symbolic text, and every drawn text must be in the corpus the font subsetter receives. The subsetting of the font binary is not covered.", "4 C47"),
  "C21": ("Object.SizeToContent executed with symbolic explicit width/height, content size and padding for 17 shape types; the solver proves the resulting size equals the request (or the documented exceptions). The automatic-fit half of the property is the subject of C27.", "4 C21"),
  "C24": ("d2near.place executed on symbolic geometry (exact dyadic fixed-point lowering of float64) for all eight constant positions and ten label positions; disjointness from the main bounding box on the named sides and centring are discharged by the solver for every geometry in range.", "4 C24"),
